@@ -29,7 +29,7 @@ Headline theorems (namespace `Cv.Rounding6`):
                                       the *computed* autocorrelations
 * C08 `online_error`                  full forward bound of `sample_covariance_online` (completes
                                       `Rounding5.online_error_partial`)
-* C20 `rbf_matrix_near`, `rbf_matrix_range`, `rq_matrix_near`   the Gram matrices `fwdM`, entrywise; with the
+* C20 `rbf_matrix_near`, `rbf_matrix_range_stdmodel`, `rq_matrix_near`   the Gram matrices `fwdM`, entrywise; with the
                                       extra hypothesis `ExpLeOne` (library `exp ≤ 1` on `x ≤ 0`): `0 < K̂ ≤ σ²(1+u)`
 * C01 `luRoute_residual_norm` / `luRoute_residual_growth` (‖b−Ax̂‖∞ ≤ γ_{3n}·ρ·‖A‖∞·‖x̂‖∞, `ρ` explicit, not
       bounded), `chol_weight_le`, `choleskyRoute_residual_norm` (‖b−Ax̂‖∞ ≤ γ_{3n+1}·n/(1−γ_{n+1})·max aᵢᵢ·‖x̂‖∞:
@@ -271,7 +271,8 @@ vectorised kernel coincide and the matrix route — broadcast subtraction, squar
 `exp`, scaling — performs for each entry exactly the operations of the scalar form,
 `C20.rbf_matrix_form_eq_scalar`): the call returns an `n × m` matrix with, for every entry,
 `c·K ≤ K̂ᵢⱼ ≤ K/c`, `c = e^{−γ₇·A}(1−uf)(1−u)` (seven rounding factors on the exponent on this route), and
-`K̂ᵢⱼ > 0`. -/
+`K̂ᵢⱼ > 0`.  PROVISO: the conjunct `K̂ᵢⱼ > 0` is a theorem of the idealised no-underflow model (`ExpLnStd`) only; with
+underflow the honest statement is `0 ≤` (`Rounding3U.rbf_range_ufl`, `rq_nonneg_ufl`). -/
 theorem rbf_matrix_near [ExpLnStd M] [PowStd M] (hid : M.Idem) (k : Gp.RBF (Fl M)) (x y : Gp.Pts (Fl M))
     (hx : PtsWF x) (hy : PtsWF y) (hxn : 0 < x.points.length) (hyn : 0 < y.points.length)
     (hv : 0 < k.var.val) (h : ((7 : Nat) : ℝ) * M.u < 1) :
@@ -283,14 +284,14 @@ theorem rbf_matrix_near [ExpLnStd M] [PowStd M] (hid : M.Idem) (k : Gp.RBF (Fl M
   obtain ⟨R, hR, h1, h2, _, h4⟩ := rbf_matrix_form_eq_scalar (powi_two_idem hid) k x y hx hy hxn hyn
   refine ⟨R, hR, h1, h2, fun i j hi hj => ?_⟩
   rw [h4 i j hi hj]
-  exact ⟨rbf_near_gen k _ _ 7 (rbfArg_fac_idem hid k _ _) hv.le h, Cv.Rounding5.rbf_pos k _ _ hv⟩
+  exact ⟨rbf_near_gen k _ _ 7 (rbfArg_fac_idem hid k _ _) hv.le h, Cv.Rounding5.rbf_pos_stdmodel k _ _ hv⟩
 
 /-- **RBF Gram matrix, range**: if moreover the library `exp` is `≤ 1` on non-positive arguments
 (`ExpLeOne`, a hypothesis separate from `ExpLnStd`), every entry satisfies `0 < K̂ᵢⱼ ≤ σ²(1+u)` IN THE
 IDEALISED MODEL `ExpLnStd` (relative accuracy of `exp` for every argument); at IEEE binary64 entries of well
 separated points underflow to exactly `0`, and only `0 ≤ K̂ᵢⱼ ≤ σ²(1+u)` holds (`Rounding3U.rbf_range_ufl` for the
 scalar form, to which every entry is equal by `C20.rbf_matrix_form_eq_scalar`). -/
-theorem rbf_matrix_range [ExpLnStd M] [PowStd M] [ExpLeOne M] (hid : M.Idem) (k : Gp.RBF (Fl M))
+theorem rbf_matrix_range_stdmodel [ExpLnStd M] [PowStd M] [ExpLeOne M] (hid : M.Idem) (k : Gp.RBF (Fl M))
     (x y : Gp.Pts (Fl M)) (hx : PtsWF x) (hy : PtsWF y) (hxn : 0 < x.points.length)
     (hyn : 0 < y.points.length) (hv : 0 < k.var.val) :
     ∃ R, k.fwdM x y = some R ∧
@@ -299,10 +300,11 @@ theorem rbf_matrix_range [ExpLnStd M] [PowStd M] [ExpLeOne M] (hid : M.Idem) (k 
   obtain ⟨R, hR, _, _, _, h4⟩ := rbf_matrix_form_eq_scalar (powi_two_idem hid) k x y hx hy hxn hyn
   refine ⟨R, hR, fun i j hi hj => ?_⟩
   rw [h4 i j hi hj]
-  exact ⟨Cv.Rounding5.rbf_pos k _ _ hv, rbf_le_var k _ _ hv.le⟩
+  exact ⟨Cv.Rounding5.rbf_pos_stdmodel k _ _ hv, rbf_le_var k _ _ hv.le⟩
 
 /-- **rational-quadratic Gram matrix, entrywise**: `c·K ≤ K̂ᵢⱼ ≤ K/c`, `c = ((1−u)¹¹)^α(1−uf)(1−u)` (the
-constant of the scalar form in the bare model, an upper bound for this route), and `K̂ᵢⱼ > 0`. -/
+constant of the scalar form in the bare model, an upper bound for this route), and `K̂ᵢⱼ > 0`.  PROVISO: the conjunct `K̂ᵢⱼ > 0` is a theorem of the idealised no-underflow model (`ExpLnStd`) only; with
+underflow the honest statement is `0 ≤` (`Rounding3U.rbf_range_ufl`, `rq_nonneg_ufl`). -/
 theorem rq_matrix_near [ExpLnStd M] [PowStd M] (hid : M.Idem) (k : Gp.RQ (Fl M)) (x y : Gp.Pts (Fl M))
     (hx : PtsWF x) (hy : PtsWF y) (hxn : 0 < x.points.length) (hyn : 0 < y.points.length)
     (hv : 0 < k.var.val) (hα : 0 ≤ k.alpha.val) :
@@ -314,7 +316,7 @@ theorem rq_matrix_near [ExpLnStd M] [PowStd M] (hid : M.Idem) (k : Gp.RQ (Fl M))
   obtain ⟨R, hR, h1, h2, _, h4⟩ := rq_matrix_form_eq_scalar (powi_two_idem hid) k x y hx hy hxn hyn
   refine ⟨R, hR, h1, h2, fun i j hi hj => ?_⟩
   rw [h4 i j hi hj]
-  exact ⟨Cv.Rounding5.rq_near k _ _ hv.le hα, Cv.Rounding5.rq_pos k _ _ hv hα⟩
+  exact ⟨Cv.Rounding5.rq_near k _ _ hv.le hα, Cv.Rounding5.rq_pos_stdmodel k _ _ hv hα⟩
 
 end Cv.Rounding6
 
@@ -678,7 +680,7 @@ local instance : ExpLeOne Mb where
     rw [Mb_rnd, if_neg (by linarith)]
     exact h1
 
-/-- `rbf_matrix_near`, `rbf_matrix_range`, `rq_matrix_near` on the point sets `[0, 1]`, `[0, 2, 5]` (as
+/-- `rbf_matrix_near`, `rbf_matrix_range_stdmodel`, `rq_matrix_near` on the point sets `[0, 1]`, `[0, 2, 5]` (as
 `Vector`s): idempotent model, `σ² = 2 > 0`, `7·u < 1` -/
 example : ∃ R, (⟨⟨2⟩, ⟨1⟩⟩ : Gp.RBF (Fl Mb)).fwdM (.vec [⟨0⟩, ⟨1⟩]) (.vec [⟨0⟩, ⟨2⟩, ⟨5⟩]) = some R ∧
     R.nrows = 2 ∧ R.ncols = 3 := by
@@ -688,7 +690,7 @@ example : ∃ R, (⟨⟨2⟩, ⟨1⟩⟩ : Gp.RBF (Fl Mb)).fwdM (.vec [⟨0⟩, 
   exact ⟨R, h1, by simpa [Gp.Pts.points] using h2, by simpa [Gp.Pts.points] using h3⟩
 example : ∃ R, (⟨⟨2⟩, ⟨1⟩⟩ : Gp.RBF (Fl Mb)).fwdM (.vec [⟨0⟩, ⟨1⟩]) (.vec [⟨0⟩, ⟨2⟩, ⟨5⟩]) = some R ∧
     0 < (R.get 1 2).val ∧ (R.get 1 2).val ≤ 2 * (1 + Mb.u) := by
-  obtain ⟨R, h1, h2⟩ := rbf_matrix_range (FlModel.bump_idem _ _ _ _) (⟨⟨2⟩, ⟨1⟩⟩ : Gp.RBF (Fl Mb))
+  obtain ⟨R, h1, h2⟩ := rbf_matrix_range_stdmodel (FlModel.bump_idem _ _ _ _) (⟨⟨2⟩, ⟨1⟩⟩ : Gp.RBF (Fl Mb))
     (.vec [⟨0⟩, ⟨1⟩]) (.vec [⟨0⟩, ⟨2⟩, ⟨5⟩]) trivial trivial (by simp [Gp.Pts.points])
     (by simp [Gp.Pts.points]) (by norm_num)
   exact ⟨R, h1, h2 1 2 (by simp [Gp.Pts.points]) (by simp [Gp.Pts.points])⟩
